@@ -11,6 +11,8 @@ import itertools
 from . import ir
 from .ir import fmt, short
 
+import re as _re
+_INTLIKE = _re.compile(r"(unsigned |signed )?(int|long|short|char|long long)( unsigned)?|std::size_t|size_t|std::(u)?int\d+_t|(u)?int\d+_t")
 T = ("c", True)
 F = ("c", False)
 MAX_INLINE = 4
@@ -264,12 +266,44 @@ def objpath(n):
     return canon(n)
 
 
+# trivial accessors of the repo (`T f() const { return member_; }`, callee id -> member short name): an atom about f() is an
+# atom about the member, so `given()` and `given_` are one and the same fact (filled by Logic.__init__ for the program)
+ACCESSORS = {}
+
+
+def register_accessors(prog):
+    ACCESSORS.clear()
+    for f in prog.fns.values():
+        if not f.has_cfg or not f.file.startswith("/repo/") or f.kind != "method" or f.params:
+            continue
+        if not f.flags.get("const") or f.flags.get("virtual"):
+            continue
+        rets = [ir.unwrap(e["expr"].get("e")) for _, _, e in f.roots() if e["expr"].get("k") == "return" and e["expr"].get("e") is not None]
+        others = [e for _, _, e in f.roots() if e["expr"].get("k") != "return"]
+        if len(rets) == 1 and not others and isinstance(rets[0], dict) and rets[0].get("k") == "member" and not rets[0].get("method"):
+            b = ir.unwrap(rets[0].get("base"))
+            if isinstance(b, dict) and b.get("k") == "this":
+                ACCESSORS[f.id] = short(rets[0]["field"])
+
+
 def canon(n):
     """canonical string of an expression (atoms); uses objpath for receivers"""
     n = ir.unwrap(n)
     if not isinstance(n, dict):
         return str(n)
     k = n.get("k")
+    if k == "call" and n.get("callee") in ACCESSORS and not [a for a in n.get("args", []) if not (isinstance(a, dict) and a.get("k") == "defarg")]:
+        fld = ACCESSORS[n["callee"]]
+        if n.get("this") is None:
+            return "this." + fld
+        th = ir.unwrap(n["this"])
+        recv = objpath(n["this"])
+        if n.get("arrow") and not (isinstance(th, dict) and th.get("k") == "this"):
+            if isinstance(th, dict) and th.get("k") == "call" and (th.get("name") or "").endswith("operator->"):
+                recv = "(*%s)" % objpath(th.get("this"))
+            else:
+                recv = "(*%s)" % recv
+        return "%s.%s" % (recv, fld)
     if k in ("ref", "this"):
         return objpath(n)
     if k == "member" and not n.get("method"):
@@ -325,6 +359,9 @@ class Logic:
         self._axiom_keys = set()
         self.used_axioms = []
         self._fn_memo = {}
+        if not ACCESSORS or getattr(prog, "_accessors_registered", None) is not True:
+            register_accessors(prog)
+            prog._accessors_registered = True
 
     # --- atoms
     def atom(self, key):
@@ -443,6 +480,9 @@ class Logic:
             t = n.get("type", "")
             if t.endswith("*") or "unique_ptr" in t or "shared_ptr" in t or "std::function" in t:
                 return self.atom("nonnull(%s)" % objpath(subst(n, env)))
+            if _INTLIKE.fullmatch(t.replace("const ", "").strip()):
+                # an integral member used as a condition: the same fact as `member != 0` (what an accessor call yields)
+                return self.atom("(%s != 0)" % canon(subst(n, env)))
         return self.atom(canon(subst(n, env)))
 
     def truthy(self, x, env, depth):
